@@ -121,6 +121,17 @@ class Translator:
             return self.expr(inner[0])
         if k == 'IntegerLiteral':
             return self.lit(n['value']), 'i'
+        if k == 'UnaryExprOrTypeTraitExpr':
+            if n.get('name') != 'sizeof':
+                raise Unsupported('type trait %s' % n.get('name'))
+            at = n.get('argType') or (n['inner'][0].get('type') if n.get('inner') else None)
+            if not at:
+                raise Unsupported('sizeof without type')
+            q = at.get('desugaredQualType') or at.get('qualType')
+            q = re.sub(r'\b(const|volatile)\b', '', q).strip()
+            if q not in INT_TYPES:
+                raise Unsupported('sizeof(%s)' % q)
+            return self.lit(INT_TYPES[q][1] // 8), 'i'
         if k == 'CharacterLiteral':
             return self.lit(n['value']), 'i'
         if k == 'CXXBoolLiteralExpr':
